@@ -51,7 +51,13 @@ def run(tier, seed):
     for t, (job, e) in enumerate(zip(emitjobs, emitted)):
         e.update({"t": t, "expects": job["expects"]})
         erecs.append(e)
-    verdicts = GC.judge_emits(chk, erecs)
+    def cyc_jobs(j):
+        if j["which"] != "cycle":
+            return None
+        ps = list(range(len(j["expects"])))
+        return [dict(j, prim=True, patterns=ps[i:i + 128], expects=j["expects"][i:i + 128], masks=j["masks"][i:i + 128])
+                for i in range(0, len(ps), 128)]
+    verdicts = GC.judge_emits(chk, erecs, jobs=emitjobs, fallback=(GR.run_cycle, cyc_jobs))
     for t, job in enumerate(emitjobs):
         v = verdicts[t]
         chk.note_case(f"emit/{job['which']}/{job['id']}/{job['form']}", len(job["obj"]["graph"]["edges"]) >= 2)
